@@ -432,6 +432,7 @@ def Clause.text : Clause → String
   | .kindDiffers => "C16: result kind differs from the wrapper's contract"
   | .scDiffers => "C16: structured_equals_output_json_with_defaults: structured content is not the JSON of the output with the schema's defaults"
   | .contentDiffers => "C16: text_fallback_iff_no_content: content is not the handler's content plus the serialized structured content where required"
+  | .errContent => "C16: the content of an error differs from the wrapper's contract (a tool error carries one text block, the error message; a protocol error carries no result)"
   | .pubIn => "C16: published_schema_is_own: tools/list advertises an input schema that is not the tool's own (declared, else inferred from its Go type)"
   | .pubOut => "C16: published_schema_is_own: tools/list advertises an output schema that is not the tool's own (declared, else inferred from its Go type)"
   | .libIn a b => s!"LIBDISC: input: jsonschema-go says {vi a}, the reference validator says {vi b}"
